@@ -354,3 +354,64 @@ pub fn fmt_toks(v: &[TokSpec]) -> String {
         .collect();
     parts.join(" ")
 }
+
+/// A caller-supplied interpreter: delegates to a real one, counts every call into it, and
+/// panics at a seeded call number (the "client crash mid-call" fault; `crash_at == 0` never).
+pub struct CrashLang<'a, L: text2num::LangInterpreter> {
+    pub inner: &'a L,
+    pub calls: Cell<u64>,
+    pub crash_at: u64,
+}
+
+impl<'a, L: text2num::LangInterpreter> CrashLang<'a, L> {
+    pub fn new(inner: &'a L, crash_at: u64) -> Self {
+        CrashLang { inner, calls: Cell::new(0), crash_at }
+    }
+    #[inline]
+    fn tick(&self) {
+        let n = self.calls.get() + 1;
+        self.calls.set(n);
+        if n == self.crash_at {
+            panic!("injected client crash in caller-supplied interpreter at call {n}");
+        }
+    }
+}
+
+impl<L: text2num::LangInterpreter> text2num::LangInterpreter for CrashLang<'_, L> {
+    fn apply(&self, w: &str, b: &mut text2num::digit_string::DigitString) -> Result<(), text2num::error::Error> {
+        self.tick();
+        self.inner.apply(w, b)
+    }
+    fn apply_decimal(&self, w: &str, b: &mut text2num::digit_string::DigitString) -> Result<(), text2num::error::Error> {
+        self.tick();
+        self.inner.apply_decimal(w, b)
+    }
+    fn get_morph_marker(&self, word: &str) -> text2num::lang::MorphologicalMarker {
+        self.tick();
+        self.inner.get_morph_marker(word)
+    }
+    fn is_decimal_sep(&self, word: &str) -> bool {
+        self.tick();
+        self.inner.is_decimal_sep(word)
+    }
+    fn format_and_value(&self, b: &text2num::digit_string::DigitString) -> (String, f64) {
+        self.tick();
+        self.inner.format_and_value(b)
+    }
+    fn format_decimal_and_value(
+        &self,
+        int: &text2num::digit_string::DigitString,
+        dec: &text2num::digit_string::DigitString,
+    ) -> (String, f64) {
+        self.tick();
+        self.inner.format_decimal_and_value(int, dec)
+    }
+    fn is_linking(&self, word: &str) -> bool {
+        self.tick();
+        self.inner.is_linking(word)
+    }
+    fn basic_annotate<T: text2num::BasicAnnotate>(&self, tokens: &mut Vec<T>) {
+        self.tick();
+        self.inner.basic_annotate(tokens)
+    }
+}
